@@ -646,6 +646,40 @@ def gen_html_bodies():
             yield "+".join(combo), N("body", *[a[c]() for c in combo])
 
 
+def gen_html_sources():
+    """HTML *source text* (through html.parser and the tree builder): a container with <= 4 items out of
+    {block element, inline element, bare text, removed element (script / style / noscript, with and without nested
+    markup), comment, void element}.  Yields (case, source, specified text)."""
+    def alts(tk):
+        return {
+            "p": lambda: (lambda a: (f"<p>{a}</p>", "\n" + a + "\n"))(tk.v()),
+            "span": lambda: (lambda a: (f"<span>{a}</span>", a))(tk.v()),
+            "a": lambda: (lambda a: (f'<a href="#x">{a}</a>', a))(tk.v()),
+            "text": lambda: (lambda a: (f" {a} ", " " + a + " "))(tk.v()),
+            "script": lambda: (f"<script>var {tk.x('RM')} = 1;</script>", ""),
+            "style": lambda: (f"<style>.{tk.x('RM')} {{}}</style>", ""),
+            "noscript": lambda: (f"<noscript><p>{tk.x('RM')}</p><img src=x></noscript>", ""),
+            "comment": lambda: (f"<!-- {tk.x('COM')} -->", ""),
+            "br": lambda: ("<br>", "\n"),
+        }
+    names = list(alts(Tok()))
+    removed = {"script", "style", "noscript"}
+    for k in (1, 2, 3, 4):
+        for combo in itertools.product(names, repeat=k):
+            if k == 4 and not (removed & set(combo) and "text" in combo):
+                continue
+            tk = Tok()
+            a = alts(tk)
+            parts = [a[c]() for c in combo]
+            for wrap, pre, post in (("div", "<div>", "</div>"), ("body", "", "")):
+                src = "<html><head><title>t</title></head><body>" + pre + "".join(x for x, _ in parts) + post + "</body></html>"
+                spec = "".join(y for _, y in parts)
+                after_removed = any(combo[i] in removed and combo[i + 1] == "text" and i > 0 and combo[i - 1] not in removed | {"text", "comment"}
+                                    for i in range(len(combo) - 1))
+                case = "text-after-removed-element" if after_removed else ("removed-markup" if removed & set(combo) else "plain")
+                yield case, src, spec
+
+
 # =============================================================================================
 # sheets: cell grids
 # =============================================================================================
